@@ -11,8 +11,12 @@
      applications, ForAll / Exists (array VALUES are not in the fragment yet);
      stage 2: Plus Times Minus LE LT ToReal Div on Int and Real, and Pow with a non-negative
      integer constant exponent (the exponents for which Sem.vpow is defined);
-     stage 3a: bit-vector not neg and or xor add sub mul udiv urem shl lshr concat comp, ult ule,
-     bv2nat (not yet: sdiv srem ashr slt sle extract rol ror zext sext; strings; arrays).
+     stage 3: bit-vector not neg and or xor add sub mul udiv urem sdiv srem shl lshr ashr concat
+     comp, ult ule slt sle, bv2nat, extract rol ror zext sext - every bit-vector operator (the
+     bit-string rules go through core/PyPrimsLemmas.v: bin_str / int_of_bits / slices against
+     div and mod by powers of two).  For zext / sext [in_frag] asks that the payload width is
+     the argument width plus the extension (what the constructor computes);
+     (not yet: strings; arrays).
    [in_frag] also asks what the constructors guarantee and tc does not check: arities, BV
    constants in range with positive width, Real constants with positive denominator, and that
    the sorts of symbols, bound variables and function results are inhabited first-order sorts
@@ -48,7 +52,8 @@ Theorem C01_simplify_frag_closed : forall ora t ty r,
   in_frag t = true -> tc t = Some ty -> simplify_opt ora t = Some r -> in_frag r = true.
 Proof. exact simplify_frag_closed. Qed.
 (* (for C02) closed, quantifier-free, UF-free terms of the fragment - [cfrag]: operators And Or Not
-   Implies Iff Ite Equals Plus Times Minus LE LT ToReal Div Pow and constants only - in which no
+   Implies Iff Ite Equals Plus Times Minus LE LT ToReal Div Pow, every bit-vector operator and
+   relation of the fragment, bv2nat, and constants only - in which no
    divisor evaluates to 0 ([nodiv0], every branch counted) simplify to a CONSTANT of the same
    sort with the same value *)
 Theorem C01_fold_complete_partial : forall ora I t ty,
